@@ -1200,6 +1200,93 @@ pub fn check_c19_acceptance(cx: &Ctx, ix: &Index, sc: &mut SigCache) -> Report {
     r
 }
 
+// ---------------------------------------------------------------------------------------------
+// C07 (always-on parts): a helper reply is byte-identical to the block originally proposed under the
+// requested digest and was asked for; blocks are stored parent-first.
+pub fn check_c07_always(cx: &Ctx, ix: &Index) -> Report {
+    let mut r = Report::default();
+    let mut first_seen: HashMap<Digest, Vec<u8>> = HashMap::new();
+    let mut requests: HashMap<(usize, usize), Vec<Digest>> = HashMap::new();
+    let mut store_order: HashMap<usize, HashMap<Vec<u8>, usize>> = HashMap::new();
+    for (pos, ev) in cx.log.iter().enumerate() {
+        match &ev.kind {
+            Kind::FrameIn { frame } => {
+                if let Some(CMsg::Sync(d, _)) = frame.cons() {
+                    requests.entry((frame.route.src, frame.route.dst)).or_default().push(d.clone());
+                    r.count("C07.sync_requests_delivered", 1);
+                }
+            }
+            Kind::FrameOut { frame, .. } => {
+                if let Some(CMsg::Propose(b)) = frame.cons() {
+                    let d = b.digest();
+                    let bytes = bincode::serialize(b).unwrap_or_default();
+                    let sender = frame.sender();
+                    let is_author = cx.topo.index_of(&b.author) == Some(sender);
+                    match first_seen.get(&d) {
+                        None => {
+                            first_seen.insert(d.clone(), bytes);
+                        }
+                        Some(orig) => {
+                            if !is_author && cx.is_honest(sender) {
+                                r.count("C07.sync_replies_checked", 1);
+                                if *orig != bytes {
+                                    r.violate(
+                                        "C07",
+                                        "sync-reply-differs-from-original",
+                                        format!("node {} answered with a block whose bytes differ from the first block seen under digest {}", sender, short(&d)),
+                                        wit(cx, &[pos]),
+                                    );
+                                }
+                                let asked = requests.get(&(frame.receiver(), sender)).map_or(false, |v| v.contains(&d));
+                                if !asked {
+                                    r.violate(
+                                        "C07",
+                                        "sync-reply-not-requested",
+                                        format!("node {} sent block {} to node {} which never asked it for that digest", sender, short(&d), frame.receiver()),
+                                        wit(cx, &[pos]),
+                                    );
+                                }
+                            }
+                        }
+                    }
+                }
+            }
+            Kind::StoreWrite { store, key, .. } => {
+                if let Some(i) = cx.store_of.get(store) {
+                    store_order.entry(*i).or_default().entry(key.clone()).or_insert(pos);
+                }
+            }
+            _ => {}
+        }
+    }
+    for (i, order) in &store_order {
+        for (key, pos) in order {
+            if key.len() != 32 {
+                continue;
+            }
+            let mut a = [0u8; 32];
+            a.copy_from_slice(key);
+            let d = Digest(a);
+            if let Some(b) = ix.blocks.get(&d) {
+                if b.qc.hash == Digest::default() {
+                    continue;
+                }
+                r.count("C07.store_order_checked", 1);
+                match order.get(&b.qc.hash.to_vec()) {
+                    Some(pp) if pp < pos => {}
+                    _ => r.violate(
+                        "C07",
+                        "block-stored-before-parent",
+                        format!("node {} stored block r{} before its parent", i, b.round),
+                        wit(cx, &[*pos]),
+                    ),
+                }
+            }
+        }
+    }
+    r
+}
+
 /// Run every always-on monitor.
 pub fn check_all(cx: &Ctx) -> (Report, Index) {
     let ix = build_index(cx);
@@ -1213,6 +1300,7 @@ pub fn check_all(cx: &Ctx) -> (Report, Index) {
     r.merge(check_c08(cx, &ix));
     r.merge(check_c09(cx, &ix, &mut sc));
     r.merge(check_c19_acceptance(cx, &ix, &mut sc));
+    r.merge(check_c07_always(cx, &ix));
     r.count("sig_checks", sc.checks);
     // General run statistics.
     let mut kinds: BTreeMap<&'static str, u64> = BTreeMap::new();
